@@ -14,6 +14,7 @@ use vf_core::{crash, CheckResult, Fail, Obs, Run, SubCheck, Tier};
 use vf_repo::FA;
 use winter_air::proof::Proof;
 use winter_crypto::{DefaultRandomCoin, ElementHasher};
+use winter_verifier::AcceptableOptions;
 
 use crate::c03::{baseline, Baseline};
 use crate::common::*;
@@ -29,6 +30,18 @@ fn variant(dbg: &str) -> String {
 pub fn hostile<B: FA, H: ElementHasher<BaseField = B>>(bytes: &[u8], descs: &[Arc<Desc>], obs: &mut Obs) -> CheckResult {
     crash::guard_begin();
     let r = (|| -> CheckResult {
+        // the same bytes through the streaming reader (Proof::read_from over a ReadAdapter): no panic either;
+        // its memory requests are measured together with everything else in this function
+        {
+            use winter_utils::{Deserializable, ReadAdapter};
+            let mut src: &[u8] = bytes;
+            if let Err(p) = vf_core::catch(|| {
+                let mut adapter = ReadAdapter::new(&mut src);
+                Proof::read_from(&mut adapter).is_ok()
+            }) {
+                return Err(Fail::new(format!("parse-stream/{}", p.key()), format!("Proof::read_from over a ReadAdapter panicked: {} at {}:{}", p.msg, p.file, p.line)));
+            }
+        }
         let parsed = match vf_core::catch(|| Proof::from_bytes(bytes)) {
             Err(p) => return Err(Fail::new(format!("parse/{}", p.key()), format!("Proof::from_bytes panicked: {} at {}:{}", p.msg, p.file, p.line))),
             Ok(Err(_)) => {
@@ -38,8 +51,28 @@ pub fn hostile<B: FA, H: ElementHasher<BaseField = B>>(bytes: &[u8], descs: &[Ar
             Ok(Ok(p)) => p,
         };
         obs.nontrivial();
-        for d in descs {
-            match verify_with::<B, H, DefaultRandomCoin<H>>(parsed.clone(), d, &min_sec0()) {
+        // the verifier's acceptance policy is evaluated on the options the bytes claim before anything else:
+        // every kind of policy takes part (chosen by the input itself, so that a replay is a function of the bytes)
+        let pick = bytes.iter().fold(0u32, |a, b| a.wrapping_mul(31).wrapping_add(*b as u32));
+        let policies = [
+            min_sec0(),
+            AcceptableOptions::MinProvenSecurity(0),
+            AcceptableOptions::MinProvenSecurity(10 + pick % 120),
+            AcceptableOptions::MinConjecturedSecurity(10 + pick % 120),
+            AcceptableOptions::OptionSet(vec![parsed.options().clone()]),
+            AcceptableOptions::OptionSet(vec![]),
+        ];
+        let policy = &policies[(pick / 7) as usize % policies.len()];
+        obs.label(format!("policy={}", match policy {
+            AcceptableOptions::MinConjecturedSecurity(0) => "conjectured>=0",
+            AcceptableOptions::MinConjecturedSecurity(_) => "conjectured>=k",
+            AcceptableOptions::MinProvenSecurity(0) => "proven>=0",
+            AcceptableOptions::MinProvenSecurity(_) => "proven>=k",
+            AcceptableOptions::OptionSet(v) if v.is_empty() => "empty-set",
+            AcceptableOptions::OptionSet(_) => "own-options",
+        }));
+        for (di, d) in descs.iter().enumerate() {
+            match verify_with::<B, H, DefaultRandomCoin<H>>(parsed.clone(), d, if di == 0 { policy } else { &policies[0] }) {
                 VerifyOutcome::Ok => obs.label("stage=accepted"),
                 VerifyOutcome::Err(e) => obs.label(format!("stage=verify-error:{}", variant(&format!("{e:?}")))),
                 VerifyOutcome::Panic(p) => {
